@@ -1114,3 +1114,77 @@ Section Results.
     - rewrite Hc. pose proof (st_len_nonneg (t_rest (r_tr r))) as Hnn. rewrite HD, st_len_app. lia.
   Qed.
 End Results.
+
+(* ------------------------------------------------------------------ 32-bit int: refutations *)
+
+(** On a platform where Go's [int] has 32 bits the length field wraps around:
+    [computeNeededBytes] returns 8 for an announced length of 2^32-1 and a negative number
+    for 2^31, so the size limit is by-passed. (Evaluated in the model only: the harness
+    runs on a 64-bit platform.) *)
+Definition hdr_ffffffff : list Z := [66; 0; 1; 8; 255; 255; 255; 255].
+Definition hdr_80000000 : list Z := [66; 0; 1; 8; 128; 0; 0; 0].
+
+Lemma hdr_ffffffff_is_header : is_header hdr_ffffffff (2 ^ 32 + 8).
+Proof. exists [66; 0; 1], 8, (2 ^ 32 - 1). repeat split; try reflexivity; vm_compute; congruence. Qed.
+
+Lemma hdr_80000000_is_header : is_header hdr_80000000 (2 ^ 31 + 8).
+Proof. exists [66; 0; 1], 8, (2 ^ 31). repeat split; try reflexivity; vm_compute; congruence. Qed.
+
+Lemma recv32_oversize_accepted M (um : list Z -> res M) :
+  r_out (recv M um 32 1048576 (mkTr (hdr_ffffffff ++ zeros 64) 0 [])) = RMsg (um hdr_ffffffff).
+Proof. vm_compute. reflexivity. Qed.
+
+Lemma recv32_oversize_panics M (um : list Z -> res M) :
+  r_out (recv M um 32 1048576 (mkTr (hdr_80000000 ++ zeros 64) 0 [])) = RPanic.
+Proof. vm_compute. reflexivity. Qed.
+
+(* ------------------------------------------------------------------ examples (non-vacuity) *)
+
+Definition ex_f1 : list Z := [66; 0; 1; 8; 0; 0; 0; 3; 1; 2; 3; 0; 0; 0; 0; 0].
+Definition ex_f2 : list Z := [66; 0; 2; 8; 0; 0; 0; 0].
+Definition ex_f3 : list Z := [66; 0; 3; 8; 0; 0; 0; 9; 1; 2; 3; 4; 5; 6; 7; 8; 9; 0; 0; 0; 0; 0; 0; 0].
+
+Lemma ex_f1_frame : is_frame ex_f1.
+Proof. exists [66; 0; 1], 8, 3, [1; 2; 3; 0; 0; 0; 0; 0]. repeat split; try reflexivity; vm_compute; congruence. Qed.
+Lemma ex_f2_frame : is_frame ex_f2.
+Proof. exists [66; 0; 2], 8, 0, []. repeat split; try reflexivity; vm_compute; congruence. Qed.
+Lemma ex_f3_frame : is_frame ex_f3.
+Proof. exists [66; 0; 3], 8, 9, [1; 2; 3; 4; 5; 6; 7; 8; 9; 0; 0; 0; 0; 0; 0; 0]. repeat split; try reflexivity; vm_compute; congruence. Qed.
+
+(** byte-wise delivery, the end error (io.EOF) returned together with the last byte *)
+Definition ex_sched_bytewise : list ans := repeat (Chunk 1 true) 60.
+(** reads larger than what is asked, spanning item boundaries on the transport's side *)
+Definition ex_sched_coalesced : list ans := [Chunk 1000 false; Chunk 5 false; Chunk 1000 true; Chunk 3 false].
+
+Lemma ex_faithful_bytewise : faithful ex_sched_bytewise.
+Proof. vm_compute. repeat split; congruence. Qed.
+Lemma ex_faithful_coalesced : faithful ex_sched_coalesced.
+Proof. vm_compute. repeat split; congruence. Qed.
+
+Lemma ex_exact_bytewise :
+  map r_out (recv_n (list Z) Ok 64 1048576 4 (mkTr (ex_f1 ++ ex_f2 ++ ex_f3) 0 ex_sched_bytewise))
+  = [RMsg (Ok ex_f1); RMsg (Ok ex_f2); RMsg (Ok ex_f3); RErr 0].
+Proof. vm_compute. reflexivity. Qed.
+
+Lemma ex_exact_coalesced :
+  map r_out (recv_n (list Z) Ok 64 0 4 (mkTr (ex_f1 ++ ex_f2 ++ ex_f3) 7 ex_sched_coalesced))
+  = [RMsg (Ok ex_f1); RMsg (Ok ex_f2); RMsg (Ok ex_f3); RErr 7].
+Proof. vm_compute. reflexivity. Qed.
+
+Lemma ex_cut : is_cut_frame (firstn 13 ex_f3).
+Proof. exists ex_f3, (skipn 13 ex_f3). split; [exact ex_f3_frame|]. split; [reflexivity | discriminate]. Qed.
+
+Lemma ex_truncated :
+  map r_out (recv_n (list Z) Ok 64 1048576 3 (mkTr (ex_f1 ++ ex_f2 ++ firstn 13 ex_f3) 0 ex_sched_bytewise))
+  = [RMsg (Ok ex_f1); RMsg (Ok ex_f2); RErr 0].
+Proof. vm_compute. reflexivity. Qed.
+
+Lemma ex_oversize :
+  let r := recv (list Z) Ok 64 1048576 (mkTr (hdr_ffffffff ++ zeros 64) 0 ex_sched_bytewise) in
+  r_out r = RTooBig /\ r_cap r = 512 /\ consumed r = 8.
+Proof. vm_compute. repeat split. Qed.
+
+(** without a limit the same header makes [Recv] ask for a 4 GiB buffer (kmipclient passes no limit) *)
+Lemma ex_no_limit_grows :
+  r_cap (recv (list Z) Ok 64 (-1) (mkTr (hdr_ffffffff ++ zeros 64) 0 [])) = 2 ^ 32 + 8.
+Proof. vm_compute. reflexivity. Qed.
